@@ -134,7 +134,7 @@ def load_known(pid):
         with open(p) as fh:
             d = json.load(fh)
         for e in d.get("findings", []):
-            if e.get("property") == pid:
+            if e.get("property") == pid or pid in e.get("also", []):
                 known[e["key"]] = e
         fixed = d.get("fixed", [])
     return known, fixed
